@@ -30,6 +30,12 @@ NEWNAMES.append(["MY_LOOP", "_START", "END_", "A_B", "X_1", "TBL_2", "L_", "_", 
                  "X_Y", "A_", "_B", "D_D", "PC_R", "LOOP_1", "LOOP_2", "DONE_", "N_1", "N_2", "N_3", "Q_Q", "Z_9"])
 
 
+# the pointer registers' own names (a symbol called X is a symbol wherever it is defined - "LDB X" means ,X only when it is not), with
+# neighbours that contain PCR
+NEWNAMES.append(["X", "Y", "U", "S", "PCRTAB", "MYPCR", "SPCRX", "XS", "SY", "UY", "YX", "SS2", "UU2", "X1", "Y1", "U1", "S1", "X@", "Y@", "U@", "S@", "XPC", "YPC",
+                 "UPC", "SPC", "PCRX", "PCRY", "XPCRY", "LPCR", "PCRL"])
+
+
 def setup(ctx):
     asmmon.install()
 
@@ -73,6 +79,9 @@ def decode_val(b):
     for k in ("val", "addr"):
         if k in d:
             val = d[k]
+    if d.get("mode") == "idx" and d.get("kind") == "off" and d.get("width") == 16:
+        val = d["off"] % 65536            # a label as the constant offset of a pointer register
+        return {k: v for k, v in d.items() if k != "off"}, val, d
     skel = {k: v for k, v in d.items() if k not in ("val", "addr")}
     return skel, val, d
 
